@@ -184,7 +184,7 @@ def newSess (ts : List String) : Option Sess × String :=
         let tbl : FnTable := fun f =>
           if f == "eval_h" then !bitOf flags 0 else if f == "eval_h_N" then !bitOf flags 1 else
           (match idxOf ocpMaskNames f with | some i => bitOf mask i | none => ocpAll.contains f)
-        let u := dlNative dlOCP ["eval_proj_diff_g", "eval_proj_multipliers"] tbl (fun _ => true)
+        let u := dlNative dlOCP [] tbl (fun _ => true)
         match ocpCtorMissing u.provided nc nh nh with
         | some x => (none, "err:missing:" ++ x)
         | none =>
